@@ -108,10 +108,15 @@ def _make_feedback(owner, fb):
     tag = f"fb:{owner}.{fb['m']}"
     hint = fb["hint"]
 
+    box = []  # one list object, mutated in place and returned again and again
+
     def getter(self):
         v = CTX.feedback(tag)
         if hint == "tuple_str" or hint == "tuple_bool2":
             return tuple(v)
+        if fb.get("inplace") and isinstance(v, list):
+            box[:] = v
+            return box
         return v
 
     getter.__name__ = fb["m"]
@@ -160,6 +165,8 @@ def build_program(rs):
         for attr, default in c.get("resets", {}).items():
             ns[attr] = will_reset_to(default)
             CTX.snap_attrs.append((n, attr))
+        for attr, value in c.get("shadow", {}).items():
+            ns[attr] = value  # a plain class attribute that hides a marker of the base class
         plain = c.get("plain", {})
         if plain:
             def __init__(self, _p=dict(plain)):
@@ -174,7 +181,8 @@ def build_program(rs):
         if c.get("base_resets"):
             bns = {a: will_reset_to(d) for a, d in c["base_resets"].items()}
             for a in c["base_resets"]:
-                CTX.snap_attrs.append((n, a))
+                if (n, a) not in CTX.snap_attrs:
+                    CTX.snap_attrs.append((n, a))
             bases = (type(f"Base_{n}", (object,), bns),)
         comp_classes[n] = type(f"Comp_{n}", bases, ns)
         order.append(n)
@@ -503,7 +511,8 @@ _ROBOT_CODE = st.tuples(
     st.lists(_COMP_CODE, max_size=4), _I(0, 4), _I(0, 255), st.booleans(), _I(0, 4),
     st.lists(st.booleans(), max_size=2), _I(0, 6), st.lists(_FB_CODE, max_size=2),
 )
-_HIST_CODE = st.lists(st.tuples(_I(0, 3), _I(1, 6)), min_size=1, max_size=8)
+_HIST_CODE = st.lists(st.tuples(_I(0, 6), _I(1, 6)), min_size=1, max_size=8)
+HIST_MODES = ("disabled", "auto", "teleop", "test", "auto", "disabled", "teleop")  # repeated autonomous / teleop periods are common
 _FAULT_CODE = st.lists(st.tuples(_I(0, 63), _I(0, 5)), min_size=1, max_size=3)
 _WRITE_CODE = st.lists(st.tuples(_I(0, 7), _I(1, 6), _I(0, 7), _I(0, 4)), max_size=4)
 _CHUNK_CODE = st.lists(st.lists(_I(1, 4_999), max_size=3), max_size=4)
@@ -520,6 +529,8 @@ def decode_fb(code, used):
     if fb["key"] and name_c % 2:
         fb["key"] = f"k{name_c}"
     fb["vals"] = [fb_value(fb["hint"], v) for v in vals]
+    if fb["hint"] in ("seq_int", "list_float", "seq_rot") and vals[0] % 2:
+        fb["inplace"] = True
     k = fb_key(fb)
     if m in used["m"] or k in used["k"] or k == "":
         return None
@@ -535,6 +546,10 @@ def decode_robot(code):
         c = {"n": f"c{i}", "setup": bool(flags & 1), "en": bool(flags & 2), "dis": bool(flags & 4)}
         c["resets"] = {f"r{j}": RESET_VALUES[(rv + j) % 5] for j in range(nres)}
         c["base_resets"] = {f"b{j}": RESET_VALUES[(rv + 2 + j) % 5] for j in range(nbres)}
+        if nbres and rv == 3:
+            c["resets"]["b0"] = RESET_VALUES[(rv + 3) % 5]  # the derived class declares the inherited marker again
+        elif nbres and rv == 4:
+            c["shadow"] = {"b0": 77}  # ... or hides it behind a plain attribute
         c["plain"] = {f"p{j}": 100 + i for j in range(nplain)}
         used = {"m": set(), "k": set()}
         c["fbs"] = [fb for fb in (decode_fb(x, used) for x in fbs_c) if fb]
@@ -560,7 +575,7 @@ def decode_robot(code):
 def decode_hist(code):
     hist = [["disabled", 2]]
     for m, d in code:
-        mode = MODES[m]
+        mode = HIST_MODES[m]
         if mode == hist[-1][0]:
             hist[-1][1] += d
         else:
@@ -581,7 +596,8 @@ def sites_of(rs):
     sites += [f"fb:robot.{fb['m']}" for fb in rs.get("rfbs", [])]
     am = active_mode(rs)
     if am:
-        sites += [f"mode:{am}.on_enable", f"mode:{am}.on_iteration", f"mode:{am}.on_disable"]
+        # listed twice: transitions of the selected mode are the rarest sites otherwise
+        sites += [f"mode:{am}.on_enable", f"mode:{am}.on_iteration", f"mode:{am}.on_disable"] * 2
     return sites
 
 
@@ -607,7 +623,7 @@ def decode_writes(code, rs):
     am = active_mode(rs)
     if am:
         writers.append(f"mode:{am}.on_iteration")
-    targets = [(c["n"], a) for c in rs["comps"] for a in list(c.get("resets", {})) + list(c.get("base_resets", {}))]
+    targets = [(c["n"], a) for c in rs["comps"] for a in sorted(set(list(c.get("resets", {})) + list(c.get("base_resets", {})))) if a not in c.get("shadow", {})]
     out = []
     if not writers or not targets:
         return out
@@ -623,6 +639,9 @@ def robot_cases(pid):
         rs = decode_robot(rcode)
         case = {"robot": rs, "hist": decode_hist(hcode), "fms": fms}
         if pid == "C07":
+            case["faults"] = decode_faults(fcode, rs)
+        elif pid == "C06" and fms and fcode[0][1] >= 3:
+            # with the FMS attached a raising callback must not disturb the lifecycle either
             case["faults"] = decode_faults(fcode, rs)
         elif pid in ("C10", "C11"):
             case["fms"] = True if fcode and fcode[0][1] >= 2 else fms
@@ -643,7 +662,7 @@ def robot_cases(pid):
 
 
 class RobotLab(Lab):
-    budgets = {"quick": 400, "thorough": 30000}
+    budgets = {"quick": 800, "thorough": 30000}
     time_budget = {"quick": 90, "thorough": 1500}
     assumptions = (
         "HAL simulator notifier/clock semantics (stepTimingAsync, paused clock) and the DriverStation simulator stand in for the roboRIO and the field",
@@ -742,11 +761,14 @@ class C06(RobotLab):
     rule = (
         "same generator; oracle = exact callback sequence of every transition step (leave previous mode, enter next mode, first iteration), boot (createObjects, setup once each, "
         "probe from inside setup() that all components exist with injection done) and shutdown in any mode, plus a per-component automaton (setup once first; execute only between "
-        "on_enable and the next on_disable). Non-trivial = a direct switch between two enabled modes or a one-iteration segment"
+        "on_enable and the next on_disable); with the FMS attached some cases also carry a fault plan (raising callbacks must not disturb the lifecycle). Non-trivial = a direct switch "
+        "between two enabled modes or a one-iteration segment"
     )
 
     def run_case(self, case):
-        run = run_program(case, with_faults=False)
+        run = run_program(case, with_faults=bool(case.get("fms")))
+        if run.exc is not None and isinstance(run.exc, Injected):
+            return {"nontrivial": False, "classes": ["aborted-by-C07-root-cause"]}
         self.check_alive_and_exc(case, run)
         rs = case["robot"]
         ex = Expect(rs, run.order)
@@ -802,6 +824,8 @@ class C06(RobotLab):
             if c.get("dis") and c.get("en") and state[n] == "enabled":
                 raise Violation("C06/automaton/left-enabled", f"{n} never got on_disable() after its last on_enable(); case: {case}")
         cl = self.classes_of(case, run)
+        if run.fired:
+            cl.add("fault-fired-under-fms")
         nt = "direct-enabled-switch" in cl or "one-iteration-segment" in cl
         return {"nontrivial": bool(nt), "classes": sorted(cl)}
 
@@ -889,9 +913,13 @@ class C10(RobotLab):
         defaults = {}
         marked = set()
         for c in rs["comps"]:
-            for a, d in list(c.get("resets", {}).items()) + list(c.get("base_resets", {}).items()):
+            # the most derived declaration decides (normal attribute lookup)
+            for a, d in list(c.get("base_resets", {}).items()) + list(c.get("resets", {}).items()):
                 defaults[f"{c['n']}.{a}"] = d
                 marked.add(f"{c['n']}.{a}")
+            for a, d in c.get("shadow", {}).items():
+                defaults[f"{c['n']}.{a}"] = d
+                marked.discard(f"{c['n']}.{a}")
             for a, d in c.get("plain", {}).items():
                 defaults[f"{c['n']}.{a}"] = d
         cur = dict(defaults)
@@ -933,6 +961,10 @@ class C10(RobotLab):
             cl.add("fault-fired")
         if any(c.get("base_resets") for c in rs["comps"]):
             cl.add("inherited-marker")
+        if any("b0" in c.get("resets", {}) for c in rs["comps"]):
+            cl.add("redeclared-marker")
+        if any(c.get("shadow") for c in rs["comps"]):
+            cl.add("shadowed-marker")
         return {"nontrivial": performed > 0 and read_back > 0, "classes": sorted(cl)}
 
 
